@@ -88,6 +88,12 @@ def configs(tier, seed):
                              _settings={'int_mode': dt == 'int64'})))
         out.append(('ops/%s/%s%s' % (sp, dt, '' if shape is None else '/' + 'x'.join(map(str, shape))),
                     dict(kind='ops', space=sp, shape=shape, dtype=dt, _settings={'int_mode': dt == 'int64'})))
+    # BLAS regime (>= T_M entries): generic scalars only in the quick tier (one path per configuration)
+    for order in ('C', 'F', 'mixed'):
+        for pat in ('distinct', 'out=x1', 'out=x2'):
+            out.append(('lincomb/tensor/float64/251x200/%s/%s/generic-scalars' % (order, pat),
+                        dict(kind='lincomb', space='tensor', shape=[251, 200], dtype='float64', pattern=pat,
+                             order=order, scalars='generic')))
     out.append(('broadcast/power2', dict(kind='broadcast', space='power2', shape=None)))
     out.append(('broadcast/power3', dict(kind='broadcast', space='power3', shape=None)))
     if tier == 'thorough':
@@ -130,7 +136,7 @@ def _scalar(ctx, space, name, dtype):
     return ctx.real(name)
 
 
-def case(ctx, kind, space, shape=None, dtype='float64', pattern='distinct', order='C'):
+def case(ctx, kind, space, shape=None, dtype='float64', pattern='distinct', order='C', scalars='all'):
     sp = make_space(dict(space=space, shape=shape, dtype=dtype))
     bump = 1 if ctx.canary else 0
     o1 = order if order != 'mixed' else 'C'
@@ -150,6 +156,10 @@ def case(ctx, kind, space, shape=None, dtype='float64', pattern='distinct', orde
     if kind == 'lincomb':
         a = _scalar(ctx, sp, 'a', dtype)
         b = _scalar(ctx, sp, 'b', dtype)
+        if scalars == 'generic':
+            for v in (a, b, a + b):
+                ctx.assume(v != 0)
+                ctx.assume(v != 1)
         x1, x2, out = operands()
         p1, p2 = ctx.snapshot(x1), ctx.snapshot(x2)
         ret = sp.lincomb(a, x1, b, x2, out)
@@ -182,8 +192,11 @@ def case(ctx, kind, space, shape=None, dtype='float64', pattern='distinct', orde
         else:
             yo = _elem(ctx, sp, 'h', o1, garbage=True)
         q1, q2 = ctx.snapshot(y1), ctx.snapshot(y2)
-        for v in q2:
-            ctx.assume(v != 0)
+        if len(q2) > 8:
+            for v in q2:
+                ctx.assume(v != 0)
+        # (small spaces: zero divisors are explored too; the quotient is then undefined over the reals and
+        #  excluded, but the previous contents of the output must still not show through)
         ret = sp.divide(y1, y2, yo)
         ctx.fact('divide-returns-out', ret is yo)
         ctx.eq('divide', yo, [u / v for u, v in zip(q1, q2)])
